@@ -52,8 +52,11 @@ func GenC08(seed uint64, run int) *Trace {
 				prog = append(prog, Op{Kind: "keys"})
 			case v < 93 && target != "dw":
 				prog = append(prog, Op{Kind: "roots"})
-			case v < 100 && finalizers < 2 && i == n-1:
+			case v < 97 && finalizers < 2 && i == n-1:
 				prog = append(prog, Op{Kind: "finalize"})
+				finalizers++
+			case v < 100 && target == "rw" && finalizers < 2 && i == n-1:
+				prog = append(prog, Op{Kind: Pick(r, []string{"finalize_ro", "finalize_ro", "close", "discard"})})
 				finalizers++
 			default:
 				prog = append(prog, Op{Kind: "has", Blks: []BlkSpec{k}})
